@@ -263,9 +263,88 @@ def r_expression_truth_table(r, prog):
     r.floor(8)
 
 
+def _unescape_machine_as_loop(r, prog):
+    """the same machine written as a loop over the characters: E := (c == backslash && !F); F := E; the character is pushed iff !E; F starts false;
+    every character of the literal is seen, in order, and the string pushed to is what is returned"""
+    from helpers import bool_branches, loop_of
+    from mirlib import op_place, is_bare, const_int
+    f = prog.fn('slicec::parsers::slice::grammar::unescape_string_literal')
+    loops = f.natural_loops()
+    nx = [c for c in f.calls() if c.name() == 'next' and not f.blocks[c.bb].get('cleanup') and vexpr(f, c.args[0]) == 'into_iter(chars(arg1))']
+    pushes = [c for c in f.calls() if c.name() == 'push' and not f.blocks[c.bb].get('cleanup')]
+    ok = len(loops) == 1 and len(nx) == 1 and len(pushes) == 1
+    why = 'one loop over arg1.chars() with one push' if not ok else ''
+    if ok:
+        head, body = loops[0]
+        elem = 'next(into_iter(chars(arg1))) as Some.0'
+        push = pushes[0]
+        ok = vexpr(f, push.args[1]) == elem and push.bb in body
+        why = 'the pushed value is %s' % vexpr(f, push.args[1])[:60] if not ok else ''
+    if ok:
+        # E: a bare local assigned Not(F) under c == 92 and 0 under c != 92, nothing else
+        E = None
+        for l in range(len(f.locals)):
+            ds = [d for d in f.defs_of(l) if d[0] == 'assign' and not f.blocks[d[1]].get('cleanup')]
+            if len(ds) != 2 or len(f.defs_of(l)) != 2:
+                continue
+            kinds = {}
+            for d in ds:
+                gs = guards.guard_set(prog, f, d[1])
+                if d[3]['k'] == 'un' and d[3]['op'] == 'Not' and any(re.match(r'^Eq\(92,%s\)$' % re.escape(elem), g) for g in gs):
+                    kinds['not'] = op_place(d[3]['a'])
+                elif d[3]['k'] == 'use' and const_int(d[3]['a']) == 0 and any(re.match(r'^Ne\(92,%s\)$' % re.escape(elem), g) for g in gs):
+                    kinds['zero'] = True
+            if 'not' in kinds and 'zero' in kinds and kinds['not'] is not None:
+                E = (l, kinds['not'])
+        ok = E is not None
+        why = 'no local computed as (c == backslash && !flag)' if not ok else ''
+    if ok:
+        e_local, src = E
+        # F: the named flag; the operand of Not is a copy of it taken in this iteration; F := 0 before the loop, F := E inside it on every path round
+        chain = src
+        seen = set()
+        while chain is not None and is_bare(chain) and chain['l'] not in seen and not f.local_name(chain['l']):
+            seen.add(chain['l'])
+            ds = [d for d in f.defs_of(chain['l']) if d[0] == 'assign']
+            chain = op_place(ds[0][3].get('a')) if len(ds) == 1 and ds[0][3]['k'] == 'use' else None
+        F = chain['l'] if chain is not None and is_bare(chain) else None
+        fd = [d for d in f.defs_of(F) if d[0] == 'assign' and not f.blocks[d[1]].get('cleanup')] if F is not None else []
+        init = [d for d in fd if d[1] not in body and d[3]['k'] == 'use' and const_int(d[3]['a']) == 0]
+        def origin_local(op):
+            pl = op_place(op)
+            hops = set()
+            while pl is not None and is_bare(pl) and pl['l'] not in hops and not f.local_name(pl['l']) and pl['l'] != e_local:
+                hops.add(pl['l'])
+                dd = [d for d in f.defs_of(pl['l']) if d[0] == 'assign']
+                pl = op_place(dd[0][3].get('a')) if len(dd) == 1 and len(f.defs_of(pl['l'])) == 1 and dd[0][3]['k'] == 'use' else None
+            return pl['l'] if pl is not None and is_bare(pl) else None
+        upd = [d for d in fd if d[1] in body and d[3]['k'] == 'use' and origin_local(d[3]['a']) == e_local]
+        ok = F is not None and len(fd) == 2 and len(init) == 1 and len(upd) == 1 and must_pass(f, upd[0][1], [head], [upd[0][1]]) \
+            and all(must_pass(f, s_, [head], [upd[0][1]], within=body) for s_ in f.succs(head) if s_ in body)
+        why = 'the flag is not initialised false and set to that value on every iteration' if not ok else ''
+    if ok:
+        # pushed exactly on the false edge of a branch on E
+        br = [(b, pl, ts, fs) for b, pl, ts, fs in bool_branches(f) if pl is not None and is_bare(pl) and b in body and ts != fs
+              and (pl['l'] == e_local or any(d[0] == 'assign' and d[3]['k'] == 'use' and op_place(d[3]['a']) is not None and op_place(d[3]['a'])['l'] == e_local for d in f.defs_of(pl['l'])))]
+        ok = len(br) == 1 and f.edge_dominates(br[0][0], br[0][3], push.bb) and push.bb not in f.reachable(br[0][2], blocked=[head]) \
+            and must_pass(f, br[0][3], [head], [push.bb], within=body)
+        why = 'the character is not pushed exactly when that value is false' if not ok else ''
+    if ok:
+        ret = vexpr(f, {'cp': {'l': 0}}, depth=6)
+        ok = ret == vexpr(f, push.args[0], depth=6)
+        why = 'the string returned (%s) is not the one pushed to' % ret[:40] if not ok else ''
+    if ok:
+        r.ok('a character is dropped iff it is a backslash and the previous one was not an unescaped backslash; the flag is updated with the same value (loop form, every character of the literal, from a not-escaped start)')
+    else:
+        r.finding('unescape-machine', f.span, 'unescape_string_literal (loop form): %s' % why)
+    r.floor(1)
+
+
 def r_unescape_machine(r, prog):
     """unescape_string_literal drops a backslash exactly when it is not itself escaped (the machine read_string_literal uses to find the closing quote)."""
     cls = [f for f in prog.fns.values() if f.path.startswith('slicec::parsers::slice::grammar::unescape_string_literal::{closure')]
+    if len(cls) == 0:
+        return _unescape_machine_as_loop(r, prog)
     if len(cls) != 1:
         raise AnchorMissing('the filter closure of unescape_string_literal')
     f = cls[0]
